@@ -295,25 +295,58 @@ def _range_loop(fn, s, var, bound, fns=("range",)):
 
 
 # ------------------------------------------------------------------ count-min linear
+def _uses(node, names):
+    return any(isinstance(c, ast.Name) and c.id in names for c in ast.walk(node))
+
+
+def split_query(fn, body, cms, buckets, depth):
+    """The reduction part of a count-min query kernel, whatever computes the columns (the row hash is not part of the
+    min-reduction; it is pinned separately, by C14's obligations): returns (init statement, loop, region, name of the
+    running minimum).  Accepted: statements before the row loop that do not touch the table or the running minimum (hash
+    preparation), exactly one initialisation of the running minimum, one `for row in range(depth)` loop directly followed
+    by `return <minimum>`; inside the loop, leading assignments that do not read the table or the minimum (the column
+    computation, e.g. `buckets[row] = ...`) are skipped, the rest is the region."""
+    if not (body and isinstance(body[-1], ast.Return) and isinstance(body[-1].value, ast.Name)):
+        raise TranslatorError(f"{fn.name}: does not end with `return <running minimum>`")
+    mc = body[-1].value.id
+    if len(body) < 3 or not isinstance(body[-2], ast.For):
+        raise TranslatorError(f"{fn.name}: the return is not directly preceded by the row loop")
+    loop = body[-2]
+    if not isinstance(loop.target, ast.Name):
+        raise TranslatorError(f"{fn.name}: row loop target")
+    _range_loop(fn, loop, loop.target.id, depth)
+    init = None
+    for st in body[:-2]:
+        if isinstance(st, ast.Assign) and len(st.targets) == 1 and isinstance(st.targets[0], ast.Name) and st.targets[0].id == mc:
+            if init is not None:
+                raise TranslatorError(f"{fn.name}: the running minimum is initialised twice")
+            init = st
+        elif isinstance(st, (ast.Assign, ast.Expr)) and not _uses(st, {mc, cms}):
+            continue                                     # hash preparation
+        else:
+            raise TranslatorError(f"{fn.name}: l.{st.lineno}: unexpected statement before the row loop")
+    if init is None:
+        raise TranslatorError(f"{fn.name}: the running minimum is not initialised before the loop")
+    k = 0
+    while k < len(loop.body) and isinstance(loop.body[k], ast.Assign) and not _uses(loop.body[k].value, {mc, cms}) \
+            and not _uses(loop.body[k].targets[0], {mc, cms}):
+        k += 1                                           # column computation
+    region = loop.body[k:]
+    if not region:
+        raise TranslatorError(f"{fn.name}: nothing left in the row loop after the column computation")
+    return init, loop, region, mc
+
+
 def _query_linear(cm):
     fn = _find_func(cm, "_query_linear")
     body = _strip_doc(fn)
-    _shape(fn, body, ["Assign", "For", "Return"])
-    _range_loop(fn, body[1], "row", "depth")
-    loop = body[1].body
-    _shape(fn, loop, ["Assign", "Assign", "If"])
-    if ast.unparse(loop[0].targets[0]) != "buckets[row]" or "cms" in ast.unparse(loop[0].value):
-        raise TranslatorError("_query_linear: first statement of the loop is not the column assignment `buckets[row] = ...`")
-    if not (isinstance(body[0], ast.Assign) and isinstance(body[0].targets[0], ast.Name)):
-        raise TranslatorError("_query_linear: first statement does not initialise the running minimum")
-    mc = body[0].targets[0].id              # local names are taken from the source (a rename is not a change)
-    if not (isinstance(body[2].value, ast.Name) and body[2].value.id == mc):
-        raise TranslatorError("_query_linear: does not return the running minimum")
+    init, loop, region, mc = split_query(fn, body, "cms", "buckets", "depth")
+    row = loop.target.id
     t = CellTrans({})
-    out = [f"(* countmin.py _query_linear l.{body[0].lineno}: the running minimum starts from uint_maxval *)",
-           t.cell_region("gen_query_linear_init", fn, body[0:1], ["uint_maxval"], [mc]),
-           f"(* _query_linear l.{loop[1].lineno}-{loop[2].end_lineno}: one row of the loop, after the column was stored into buckets[row] *)",
-           t.cell_region("gen_query_linear_step", fn, loop[1:], [mc, "cms_row_buckets_row"], [mc])]
+    out = [f"(* countmin.py _query_linear l.{init.lineno}: the running minimum starts from uint_maxval *)",
+           t.cell_region("gen_query_linear_init", fn, [init], ["uint_maxval"], [mc]),
+           f"(* _query_linear l.{region[0].lineno}-{region[-1].end_lineno}: one row of the loop, after the column computation *)",
+           t.cell_region("gen_query_linear_step", fn, region, [mc, f"cms_{row}_buckets_{row}"], [mc])]
     return out
 
 
